@@ -143,6 +143,15 @@ def implies_py(a, b):
     return (not a) or b
 
 
+def ports_are(c, ports, want):
+    """the list of server ports denotes exactly the SET `want` (order and repetitions do not matter to any reader of it)"""
+    try:
+        ports = list(ports)
+    except Exception:
+        return False
+    return all(c.prove(bor(*[eq(p, x) for x in want])) for p in ports) and all(any(c.prove(eq(p, x)) for p in ports) for x in want)
+
+
 @harness(["C18", "C06", "C09"], "run.state_and_writer", functions=[M + ".run"], cases=[("fresh",), ("after_earlier_run",)])
 def h_state(c, how):
     """module-level state left by an earlier run() in the same interpreter does not reach this run; every
@@ -166,10 +175,38 @@ def h_state(c, how):
     writes = [x for x in c.calls(w["writer"]) if x[0] == "writepkt"]
     c.ensure("earlier_run.sessions_not_exported", len(writes) == 0)
     c.ensure("earlier_run.keylog_fresh", len(w["keylog"]) == 0)
-    c.ensure("earlier_run.server_ports_fresh", list(w["server_ports"]) == [443, 44330, 443])
+    c.ensure("earlier_run.server_ports_fresh", ports_are(c, w["server_ports"], [443, 44330, 443]))
     c.ensure("-s.exactly_that_file_read", nm.count("read_keylog_from_file") == 1)
     opens = [x for x in w["calls"] if x[0] == "open"]
     c.ensure("files.only_infile_and_outfile", [(x[1], x[2]) for x in opens] == [("in.pcapng", "rb"), ("out.pcapng", "wb")])
+
+
+@harness(["C10", "C18"], "run.two_runs", functions=[M + ".run"])
+def h_two_runs(c):
+    """run() twice in one interpreter, the first time with -p <any port>, the second time without: the ports that make TCP
+    traffic TLS in the second run are exactly the two defaults and that run's own -p list (whatever the first run left)"""
+    if c.native:
+        return
+    w = run_world(c, "other")
+    p1 = c.int("first_run_-p", 1, 65535)
+    c.set(w["args"], "serverports", [p1])
+    out = c.call(M + ".run")
+    c.ensure("first_run.no_raise", out.exc is None, kind="raises")
+    if out.exc is not None:
+        return
+    c.ensure("first_run.server_ports", ports_are(c, w["server_ports"], [443, 44330, p1]))
+    c.set(w["args"], "serverports", [443])
+    seen = []
+    c.summary_override(M + ".handle_packet", lambda ctx, *a, **k: None)
+    out = c.call(M + ".run")
+    c.ensure("second_run.no_raise", out.exc is None, kind="raises")
+    if out.exc is not None:
+        return
+    c.ensure("second_run.server_ports_are_the_defaults_and_this_run's_-p", ports_are(c, c.module_global(M, "server_ports"), [443, 44330]))
+    c.cover("both_runs")
+
+
+h_two_runs.must_cover = ["both_runs"]
 
 
 @harness(["C18", "C06", "C08"], "run.writer_loop", functions=[M + ".run"])
